@@ -458,7 +458,7 @@ class CPHDType(Serializable):
 
         header = CPHDHeader(**kwargs)
         header_str = header.to_string()
-        min_xml_offset = len(header_str) + len(CPHD_SECTION_TERMINATOR)
+        min_xml_offset = len(header_str.encode()) + len(CPHD_SECTION_TERMINATOR)
         if kwargs['XML_BLOCK_BYTE_OFFSET'] < min_xml_offset:
             header = self.make_file_header(xml_offset=_align(min_xml_offset + 32), use_version=use_version)
 
